@@ -52,3 +52,8 @@ reg('C07', 'exploration', 'X (exhaustive input enumerator)', 'bounded exhaustive
     'Stores and seven load paths are executed for every supported type class at every alignment in the first and last bytes of a 64 KiB foreign-ABI region (objects ending on the last byte, PROT_NONE page behind) and a stride through the interior, for boundary values and three background patterns; after each store the entire region is compared with the reference image, each load with the reference decoding.',
     'Reference codec and layout table are hand-written for lp32/16-bit pointers; interior addresses by stride; little-endian only.',
     'DESIGN.md section 3, C07')
+
+reg('C10', 'exploration', 'X (exhaustive input enumerator)', 'bounded exhaustive enumeration vs three-valued 128-bit interval model, whole-region byte diff, guard-page faults',
+    'Eleven bulk operations are executed over the product of start classes (null, first/last bytes, interior, application arena abutting guard pages, other sandbox, same sandbox), an extent lattice from 0 to 2^64-1 (incl. counts whose byte size wraps 2^64), six element types and six size-operand forms; each outcome is judged by an exact interval model (must-abort / must-proceed-on-exactly-these-bytes / null / unconstrained) and a byte diff of both sandboxes and the arena.',
+    'Start addresses are classes; mbox has no grant/deny support so the copy branches are the ones exercised; allocations above 1 MiB are refused by the harness.',
+    'DESIGN.md section 3, C10')
